@@ -3,6 +3,7 @@ package checks
 // C11 — boolean connectives follow three-valued (Kleene) logic.
 
 import (
+	"context"
 	"encoding/json"
 	"fmt"
 	"strings"
@@ -86,7 +87,16 @@ func accepted(op string, a, b string) []string {
 		return []string{kNot(a)}
 	default: // isunknown
 		if a == "H" {
-			return []string{"T", "H"}
+			// open finding D37: the non-suppressible error is swallowed and reads as unknown
+			ev := c11Ev
+			if ev == nil {
+				ev = &Ev{Prop: "C11"}
+			}
+			if ev.quirk("is_unknown_swallows_hard_error") {
+				ev.KFCase("D37")
+				return []string{"T", "H"}
+			}
+			return []string{"H"}
 		}
 		return []string{kUnknown(a)}
 	}
@@ -436,9 +446,24 @@ func truthTableCases() []KleeneCase {
 	return out
 }
 
+var c11Ev *Ev
+
+func init() {
+	quirkProbes["is_unknown_swallows_hard_error"] = func() bool {
+		p, err, _ := ParseSafe(`($nosuchvariable == 1) is unknown`)
+		if err != nil {
+			return false
+		}
+		o := RunQuery(context.Background(), p, nil)
+		return o.Class == EOK // the unknown-variable error was swallowed
+	}
+}
+
 func TestC11(t *testing.T) {
 	ev := newEv(t, "C11")
+	c11Ev = ev
 	ev.replayTier(t)
+	_ = ev.quirk("is_unknown_swallows_hard_error")
 	record := func(class string, c KleeneCase, f kleeneFacts) {
 		key, _ := json.Marshal(c)
 		nontriv := f.op != "" && f.oq != "" && !f.open && (f.op == "U" || f.op == "H" || f.oq == "U" || f.oq == "H" || f.op != f.oq)
